@@ -7,6 +7,9 @@ interleaved.  Oracle: reference model of the statement (per device and field:
 offset = sum of the raw values seen just before each drop).
 """
 
+import os
+import threading
+
 from hypothesis import strategies as st
 
 from props import c09_iocounters as c09
@@ -168,6 +171,9 @@ class WrapModel:
 def run_case(case):
     import psutil
 
+    if "sched" in case:
+        run_sched(*case["sched"])
+        return Result(["sched"])
     known = known_keys("C10")
     w = World()
     k = simk.Kernel()
@@ -280,6 +286,95 @@ def run_case(case):
     return Result(sorted(labels), nontrivial, {"excluded": excluded})
 
 
+def run_sched(first, steps):
+    """One schedule: thread `first` runs `steps` source lines of its
+    net_io_counters(nowrap=True) call, then the kernel step (all raw counters
+    grow), then the other thread runs to completion, then the rest.  Returns
+    None or a description of the phantom wrap."""
+    import psutil
+    from vlib import detsched
+
+    psdir = os.path.dirname(psutil.__file__)
+    w = World()
+    w.raw["net"] = {"lo": [100, 200, 300]}
+    k = simk.Kernel()
+    k.mkdir("/sys/block/sda")
+    w.install(k)
+    versions = [dict(w.expected_raw("net"))]
+    out = {}
+
+    def kernel_step():
+        w.raw["net"]["lo"] = [x + 1000 for x in w.raw["net"]["lo"]]
+        w.install(k)
+        versions.append(dict(w.expected_raw("net")))
+
+    def caller(i):
+        def run():
+            out[i] = psutil.net_io_counters(pernic=True, nowrap=True)
+        return run
+
+    with simk.installed(k):
+        psutil.net_io_counters(pernic=True, nowrap=True)   # establishes the cache
+        sched = detsched.Scheduler(psdir)
+        C = psutil._common
+        old_lock = C._wn.lock
+        C._wn.lock = detsched.CoopLock(sched)
+        # any other module-level lock would block a parked thread for real:
+        # make them cooperative too
+        lock_type = type(threading.Lock())
+        swapped = []
+        for mod in (psutil, C):
+            for name, val in list(vars(mod).items()):
+                if isinstance(val, lock_type):
+                    swapped.append((mod, name, val))
+                    setattr(mod, name, detsched.CoopLock(sched))
+        try:
+            results, errors, sites = sched.run(
+                [caller(0), caller(1), kernel_step],
+                [(first, steps), (2, 1), (1 - first if first == 0 else 0, 10**6)])
+        except detsched.Deadlock as e:
+            raise Violation("sched-deadlock", f"schedule ({first}, {steps}): {e}") from None
+        finally:
+            C._wn.lock = old_lock
+            for mod, name, val in swapped:
+                setattr(mod, name, val)
+        final = psutil.net_io_counters(pernic=True, nowrap=True)
+    if errors:
+        raise Violation("sched-exception", repr(errors))
+    valid = [tuple(v["lo"]) for v in versions]
+    bad = [i for i in (0, 1) if tuple(out[i]["lo"]) not in valid]
+    if tuple(final["lo"]) != valid[-1]:
+        bad.append("final")
+    if bad:
+        raise Violation(
+            "phantom-wrap",
+            f"schedule ({first}, {steps}): raw counters only grew {valid}; thread results "
+            f"{[tuple(out[i]['lo']) for i in (0, 1)]}, later call {tuple(final['lo'])}; "
+            f"pre-emption sites {sites}")
+
+
+def sched_tier(tier, seed, stats):
+    """Two threads call net_io_counters(pernic=True, nowrap=True) while the raw
+    counters only grow.  No wrap ever happened, so every returned value must
+    equal a raw value that existed during the calls and later calls must not
+    be inflated.  All (first thread, steps) prefixes up to a bound are
+    ENUMERATED, not sampled."""
+    bound = 40 if tier == "quick" else 160
+    n = 0
+    for first in (0, 1):
+        for steps in range(1, bound):
+            case = {"sched": [first, steps]}
+            try:
+                run_sched(first, steps)
+            except Violation as v:
+                stats.fail(case, v)
+                stats.notes["schedules_enumerated"] = n
+                return
+            n += 1
+            stats.record(case, Result(["sched"], "sched|%d|%d" % (first, min(steps, 30))), keep_sample=(n == 1))
+    stats.notes["schedules_enumerated"] = n
+
+
 PROP = Property(
     id="C10",
     level="exploration",
@@ -295,6 +390,7 @@ PROP = Property(
     strategy=strategy,
     run_case=run_case,
     budgets={"quick": 20000, "thorough": 600000},
+    extra_tiers=[("sched", sched_tier)],
     assumptions=[
         "a device's presence is observed at nowrap=True calls only",
         "sequential histories here; two-thread schedules are explored by the "
